@@ -45,7 +45,7 @@ Definition c19_world : world :=
                                                 d_dyn := false; d_deno_types := false; d_attr := 0 |}, false)];
                                  wm_tdep := None |});
                 (2, WModule 2 {| wm_hash_raw := 0; wm_hash_text := 0; wm_media := MJson; wm_parse_ok := true; wm_kind := MkJs; wm_deps := []; wm_tdep := None |})];
-     w_resp_reload := []; w_http := []; w_lock := None; w_class := []; w_file := []; w_max_redirects := 10; w_npm := None |}.
+     w_resp_reload := []; w_http := []; w_lock := None; w_class := []; w_file := []; w_max_redirects := 10; w_wasm_ext := []; w_wasm_nodts := []; w_npm := None |}.
 Definition c19_opts : bopts :=
   {| bo_kind := KAll; bo_is_dynamic := false; bo_skip_dynamic := false; bo_unstable_bytes := false;
      bo_unstable_text := false; bo_unstable_css := false |}.
